@@ -65,6 +65,9 @@ type Options struct {
 	AutoRelease bool  // with Hold: a seeded goroutine releases bytes in random cross-stream order
 	Seed        int64 // for AutoRelease
 	YieldOnCtl  bool  // side A gives up the processor after every Write on the control stream (index 0): goroutines that write records in several pieces interleave if nothing else orders them
+	DataLag     time.Duration // with LagData: how long the control stream has to be quiet before data arrives (0: 15 ms)
+	DataWriteDelay time.Duration // every Write of side A on a data stream takes this long (a slow uplink)
+	CtlBackLag  time.Duration // with AutoRelease: what side B writes on the control stream arrives this much later (a long round trip)
 	LagData     bool  // with AutoRelease: data streams lag - their bytes arrive only after the control stream (index 0) has been quiet for a while
 }
 
@@ -88,7 +91,14 @@ type FlipSpec struct {
 	Frame               int
 }
 
+type stamp struct {
+	end int
+	t   time.Time
+}
+
 type dirBuf struct {
+	stamps   []stamp // (CtlBackLag) when each written prefix was written
+	agedTo   int     // (CtlBackLag) bytes old enough to arrive
 	data     []byte
 	readPos  int
 	released int  // bytes that have arrived at the reader
@@ -229,6 +239,33 @@ func (p *Pair) releaser() {
 			p.cond.Wait()
 			pend = p.pendingLocked()
 		}
+		if p.opts.CtlBackLag > 0 {
+			// bytes side B wrote on the control stream have to age before they arrive
+			var ok []*dirBuf
+			now := time.Now()
+			for _, x := range pend {
+				if len(x.stamps) == 0 {
+					ok = append(ok, x)
+					continue
+				}
+				aged := 0
+				for _, st := range x.stamps {
+					if now.Sub(st.t) >= p.opts.CtlBackLag {
+						aged = st.end
+					}
+				}
+				x.agedTo = aged
+				if aged > x.released || (x.fin && !x.finRel && aged >= len(x.data)) {
+					ok = append(ok, x)
+				}
+			}
+			if len(ok) == 0 {
+				p.mu.Unlock()
+				time.Sleep(2 * time.Millisecond)
+				continue
+			}
+			pend = ok
+		}
 		b := pend[p.rng.Intn(len(pend))]
 		if p.opts.LagData {
 			// control stream first; data only after a quiet period on the control stream
@@ -247,7 +284,12 @@ func (p *Pair) releaser() {
 			if ctl != nil {
 				b = ctl
 				p.lastCtl = time.Now()
-			} else if time.Since(p.lastCtl) < 15*time.Millisecond {
+			} else if quiet := p.opts.DataLag; time.Since(p.lastCtl) < func() time.Duration {
+				if quiet > 0 {
+					return quiet
+				}
+				return 15 * time.Millisecond
+			}() {
 				p.mu.Unlock()
 				time.Sleep(2 * time.Millisecond)
 				continue
@@ -255,6 +297,13 @@ func (p *Pair) releaser() {
 		}
 		if b.released < len(b.data) {
 			n := len(b.data) - b.released
+			if len(b.stamps) > 0 && p.opts.CtlBackLag > 0 {
+				n = b.agedTo - b.released
+				if n <= 0 {
+					p.mu.Unlock()
+					continue
+				}
+			}
 			switch p.rng.Intn(3) {
 			case 0:
 				n = 1 + p.rng.Intn(n)
@@ -490,6 +539,9 @@ func (s *Stream) Read(b []byte) (int, error) {
 
 func (s *Stream) Write(b []byte) (int, error) {
 	n, err := s.write(b)
+	if d := s.p.opts.DataWriteDelay; d > 0 && s.side == A && s.core.initiator == A && s.core.index > 0 {
+		time.Sleep(d)
+	}
 	if s.p.opts.YieldOnCtl && s.side == A && s.core.initiator == A && s.core.index == 0 {
 		runtime.Gosched()
 		time.Sleep(3 * time.Microsecond)
@@ -513,6 +565,9 @@ func (s *Stream) write(b []byte) (int, error) {
 	}
 	start := len(out.data)
 	out.data = append(out.data, b...)
+	if p.opts.CtlBackLag > 0 && s.side == B && s.core.initiator == A && s.core.index == 0 {
+		out.stamps = append(out.stamps, stamp{end: len(out.data), t: time.Now()})
+	}
 	if s.core.initiator == A {
 		for _, f := range p.flips {
 			if f.Stream != s.core.index || f.Dir != s.side {
